@@ -80,13 +80,21 @@ def gen_programs(rng, nclients, big_ok=True, kinds=None, nshared=None):
                     data = (head * 30000)[: rng.pick([262144, 131072])] + bytes(rng.pick([262144, 524288]))  # ends with whole zero buffers, length a multiple of 256 KiB
                 key = "c%d.%d" % (c, k)
                 contents[key] = data
+                if not one_size and rng.chance(1, 10):
+                    # an emptied file: zero bytes are a complete, verifiable content like any other
+                    key = "empty"
+                    contents[key] = b""
                 if c > 0 and rng.chance(1, 8):
                     # the very bytes another client is writing (to the same or another path): whatever is keyed by
                     # content or by its hash is now shared between two server processes
                     others = sorted(kk for kk in contents if kk.startswith("c") and not kk.startswith("c%d." % c))
                     if others:
                         key = rng.pick(others)
-                exp = rng.pick(["seen"] * 4 + ["init"] * 3 + ["none"] * 2 + ["stale"])
+                exp = rng.pick(["seen"] * 4 + ["init"] * 3 + ["none"] * 2 + ["stale"] + ["self"] * 2)
+                if exp == "self":
+                    # "I last saw exactly the bytes I am sending" (a client re-sending what it believes is already there):
+                    # a no-op only if the hub still holds them - otherwise a refused write like any other
+                    exp = ("content", key)
                 prog.append(Op(c, "Put", path, expected=exp, content=key, opno=k, pieces=rng.range(1, 5), wire=alias(rng, path)))
             elif kind == "Delete":
                 prog.append(Op(c, "Delete", path, expected=rng.pick(["seen", "seen", "init", "none", "stale"]), opno=k, wire=alias(rng, path)))
@@ -757,6 +765,22 @@ def gen_twin_put(rng):
     return progs, contents, initial
 
 
+def gen_get_race(rng):
+    """Readers of one big committed file while a writer replaces it - with nothing (an emptied file), with one byte,
+    with bytes of the same length: a fetch announces a length and a hash and must deliver exactly that, whatever
+    the writer does to the path meanwhile."""
+    big = (b"big-initial-%s|" % rng.bytes(4).hex().encode()) * 30000
+    big = big[: rng.pick([70000, 300 * 1024, 600000])]
+    contents = {"init-f": big, "empty": b"", "one": b"1", "same-length": bytes(b ^ 0x20 for b in big)}
+    repl = rng.pick(["empty", "empty", "one", "same-length"])
+    programs = [[Op(0, "Get", "f", opno=0), Op(0, "Get", "f", opno=1), Op(0, "Bye", opno=99)], [Op(1, "Put", "f", expected="init", content=repl, opno=0), Op(1, "Bye", opno=99)]]
+    if rng.chance(1, 2):
+        programs.append([Op(2, "Get", "f", opno=0), Op(2, "Bye", opno=99)])
+    if rng.chance(1, 3):
+        programs[1].insert(1, Op(1, "Put", "f", expected="seen", content="same-length" if repl != "same-length" else "one", opno=1))
+    return programs, contents, {"f": "init-f"}
+
+
 def _c10_worker(args):
     seedv, lo, hi, wroot, mode = args
     res = {"evaluations": 0, "distinct": set(), "viol": [], "counters": {}, "samples": [], "inconclusive": 0}
@@ -776,6 +800,11 @@ def _c10_worker(args):
             programs, contents, initial, badkind = gen_bad_put(rng)
             n = 1
             strat = RandomWalk(rng)
+        elif mode == "getrace":
+            rng = SplitMix.derive(seedv, "c10getrace", idx)
+            programs, contents, initial = gen_get_race(rng)
+            n = len(programs)
+            strat = PCT(rng, 2 * n, d=rng.range(1, 3), horizon=rng.pick([30, 60, 120])) if rng.chance(1, 2) else RandomWalk(rng)
         elif mode == "twinput":
             rng = SplitMix.derive(seedv, "c10twin", idx)
             programs, contents, initial = gen_twin_put(rng)
@@ -1128,7 +1157,7 @@ def c10(tier):
     th = tier == "thorough"
     wroot = workdir("c10")
     jobs = []
-    for mode, n in (("pct", 9000 if th else 420), ("random", 6000 if th else 280), ("badput", 1200 if th else 120), ("twinput", 6000 if th else 400)):
+    for mode, n in (("pct", 9000 if th else 420), ("random", 6000 if th else 280), ("badput", 1200 if th else 120), ("twinput", 6000 if th else 400), ("getrace", 5000 if th else 400)):
         per = max(1, n // (NCPU * 2))
         for lo in range(0, n, per):
             jobs.append((seed(), lo, min(n, lo + per), wroot, mode))
@@ -2536,6 +2565,9 @@ def replay_schedule(pid, rp):
         if mode == "badput":
             programs, contents, initial, _k = gen_bad_put(SplitMix.derive(seedv, "c10bad", idx))
             n = 1
+        elif mode == "getrace":
+            programs, contents, initial = gen_get_race(SplitMix.derive(seedv, "c10getrace", idx))
+            n = len(programs)
         elif mode == "twinput":
             programs, contents, initial = gen_twin_put(SplitMix.derive(seedv, "c10twin", idx))
             n = 2
